@@ -606,5 +606,6 @@ func extractC16() *lean {
 	l.def("restartAfterWipe", "Bool", c16Bool(restart), restart)
 	l.def("updateServiceCalls", "List String", leanStrList(updCalls), updCalls)
 	l.def("updateSkipsExisting", "Bool", c16Bool(skipExisting), skipExisting)
+	c16NodeFacts(l) // deepening round: node layer (c16node.go)
 	return l
 }
